@@ -12,6 +12,9 @@ import itertools, os, random, sys
 LEAVES = [('I',), ('X', 1), ('X', 2), ('D', 1), ('D', 2), ('V',)]
 SMALL_LEAVES = [('X', 1), ('D', 1), ('V',)]
 UNARY = [('neg',)] + [(k, t) for k in ('cmulL', 'cmulR', 'div', 'addc', 'cadd', 'subc', 'csub') for t in ('T', 'int')]
+# further integral scalar types (unsigned, size_t, long, short): one-level trees only
+UNARY_INTS = [(k, t) for k in ('cmulL', 'cmulR', 'div', 'addc', 'cadd', 'subc', 'csub') for t in ('uint', 'size_t', 'long', 'short')]
+LIT = {'int': ('2', '3'), 'uint': ('2u', '3u'), 'size_t': ('size_t{2}', 'size_t{3}'), 'long': ('2L', '3L'), 'short': ('short{2}', 'short{3}')}
 BINARY = ['mul', 'add', 'sub']
 
 
@@ -28,7 +31,7 @@ def lib(n):
     if k == 'neg': return '(-%s)' % lib(n[1])
     if k in ('mul', 'add', 'sub'):
         return '(%s %s %s)' % (lib(n[1]), {'mul': '*', 'add': '+', 'sub': '-'}[k], lib(n[2]))
-    c = 'c' if n[1] == 'T' else ('3' if k in ('addc', 'csub') else '2')
+    c = 'c' if n[1] == 'T' else LIT[n[1]][1 if k in ('addc', 'csub') else 0]
     a = lib(n[2])
     return {'cmulL': '(%s * %s)' % (c, a), 'cmulR': '(%s * %s)' % (a, c), 'div': '(%s / %s)' % (a, c), 'addc': '(%s + %s)' % (a, c),
             'cadd': '(%s + %s)' % (c, a), 'subc': '(%s - %s)' % (a, c), 'csub': '(%s - %s)' % (c, a)}[k]
@@ -135,6 +138,8 @@ def main():
     rnd = random.Random(seed)
     if mode == 'c05':
         trees = [(nm, t) for nm, t in NAMED] + [(lib(t), t) for t in level1(LEAVES)]
+        for u in UNARY_INTS:
+            for l in (('X', 1), ('D', 1), ('mul', ('D', 1), ('X', 1))): trees.append((lib(unary(u, l)), unary(u, l)))
         have = set(t for _, t in trees)
         for t in constructor_pairs():
             if t not in have: trees.append((lib(t), t)); have.add(t)
